@@ -3,6 +3,8 @@ CONSTANTS
   Depth = 10
   BugGlobalFallback = FALSE
   BugSharedInstance = FALSE
+  BugCloneShares = FALSE
+  Focus = "all"
   Emit = TRUE
 INVARIANT Reproducible
 INVARIANT SeedsDiffer
